@@ -125,15 +125,15 @@ def outOf (canary : String) (j : Json) : R (XOut CNet) := do
 
 /-! ### the model run -/
 
-def runCall (call : String) (P : Option (Provider Strat CNet)) (c : XCtx Strat) (b : Api) (n : XNet CNet) (m : Mem) :
-    Option (XOut CNet) :=
+def runCall (call : String) (P : Option (Provider Strat CNet)) (c : XCtx Strat) (b : Api) (n : XNet CNet) (m : Mem)
+    (bare : Bool) : Option (XOut CNet) :=
   match call with
   | "patchStableService" => some (patchStableServiceX c b n m)
   | "restoreStableService" => some (restoreStableServiceX c b n m)
   | "restoreGateway" => some (restoreGatewayX P c b n m)
   | "removeCanaryService" => some (removeCanaryServiceX c b n m)
   | "finalisingTrafficRouting" => some (finalisingTrafficRoutingX P c b n m)
-  | "doTrafficRouting" => some (doTrafficRoutingX stratOps P c b n m)
+  | "doTrafficRouting" => some (doTrafficRoutingB stratOps P c b n m bare)
   | "routeAllToNew" => some (routeAllToNewX stratOps P c b n m)
   | _ => none
 
@@ -182,14 +182,11 @@ def handleCall (inp impl : Json) : R OpResult := do
   let pristine ← (match jopt trace "pristine" with | none => pure false | some v => jbool v)
   let s := c.strategy
   let sAll := stratOps.routeAll s
-  -- known-finding region `selectorlessStable` (outside the model: the abstract Service state has no "selector is
-  -- nil" component): the stable Service carries no selector at all and `DoTrafficRouting` is about to create the
-  -- canary Service from it — `createCanaryService` assigns into the nil selector map and panics
+  -- known-finding region `selectorlessStable` (`RV.TrafficX.panicsBare`): the stable Service carries no selector
+  -- at all and `DoTrafficRouting` is about to create the canary Service from it — `createCanaryService` assigns
+  -- into the nil selector map and panics.  The model says so (`doTrafficRoutingB`): the panic is compared too.
   let stableBare ← (match jopt (← jget inp "net") "stableBare" with | none => pure false | some v => jbool v)
-  let gBare := stableBare && call == "doTrafficRouting" && c.hasRef && isStep stratOps s && n.stableExists &&
-    n.stableSel.isNone && n.canarySvc.isNone && !c.noGen && c.stableRev != "" && c.canaryRev != "" &&
-    !(c.lastUpdate == .fresh && decide (c.doGrace > 0)) &&
-    (match b.r with | some 1 => false | some 2 => false | _ => true)   -- no read fault before the canary Service is created
+  let gBare := call == "doTrafficRouting" && panicsBare stratOps c b n stableBare
   -- known-finding region `sameServiceGateway`: no canary Service of its own (the providers get the stable name
   -- twice) together with a Gateway API ref.  There the Gateway member is judged by `C05.x_finalise_restores`
   -- alone; the other oracles judge the remaining members.
@@ -224,15 +221,15 @@ def handleCall (inp impl : Json) : R OpResult := do
     let ie ← fBool impl "err"
     return { model := mkObj [("err", boolJ e)], holds := [],
              tags := tags ++ [if ie then "init:err" else "init:ok"] }
-  match runCall call P c b n m with
+  match runCall call P c b n m stableBare with
   | none => .error s!"trafficx: unknown call {call}"
   | some o =>
     let modelled := shapesModelled p nin.refs [cuStrategy s, cuStrategy sAll]
     if !modelled then tags := tags ++ ["shape:unmodelled"]
-    let model := if modelled && !gBare then outJ kinds b stableBare o else Json.null
+    let model := if modelled then outJ kinds b stableBare o else Json.null
     if (jopt impl "panic").isSome then
-      -- inside the region of the known finding the panic is judged under C09 alone
-      let keys := if gBare then ["C09.x_no_panic"]
+      -- inside the region of the known finding the panic is judged under C03 / C09
+      let keys := if gBare then ["C03.x_no_panic", "C09.x_no_panic"]
         else ["C03.x_no_panic", "C04.x_no_panic", "C05.x_no_panic", "C06.x_no_panic", "C07.x_no_panic", "C09.x_no_panic"]
       return { model := model, holds := keys.map fun k => (k, false), tags := tags ++ ["panic"] }
     let io ← outOf p.canary impl
